@@ -191,7 +191,7 @@ func runC05(c *core.Ctx) {
 	mine := func() bool { idx++; return c.Mine(idx) }
 	delays := []time.Duration{90 * time.Second, time.Second, 0, time.Hour, 7 * time.Millisecond}
 	okv := func(v string) fieldVal { return fieldVal{kind: "correct", val: v} }
-	issueKinds := []string{"now", "edge-ok", "edge-stale", "old", "absent", "future"}
+	issueKinds := []string{"now", "edge-ok", "edge-stale", "old", "absent", "future", "year-1700", "year-1582", "year-1000", "year-0001", "year-1431"}
 
 	genReq := func(m *saml.EntityDescriptor) c05Req {
 		r := c.Rng
@@ -328,6 +328,11 @@ func c05Run(c *core.Ctx, m *saml.EntityDescriptor, q c05Req) {
 		issue = now.Add(-10*q.delay - time.Hour)
 	case "future":
 		issue = now.Add(q.delay + time.Hour)
+	default:
+		if strings.HasPrefix(q.issueOff, "year-") { // centuries ago: stale by any arithmetic that does not wrap
+			y, _ := strconv.Atoi(strings.TrimPrefix(q.issueOff, "year-"))
+			issue = time.Date(y, 6, 1, 12, 0, 0, 0, time.UTC)
+		}
 	}
 	f := string(saml.TransientNameIDFormat)
 	ar := saml.AuthnRequest{ID: "id-req-c05", Version: "2.0", IssueInstant: issue, Destination: so.IDPSSO, ProtocolBinding: saml.HTTPPostBinding,
@@ -424,7 +429,7 @@ func c05Run(c *core.Ctx, m *saml.EntityDescriptor, q c05Req) {
 		regMD[so.SPMeta] = m
 	}
 	issuerKnown := !q.issuer.absent && regMD[q.issuer.val] != nil
-	stale := q.issueOff == "edge-stale" || q.issueOff == "old" || (q.issueOff == "absent" && true)
+	stale := q.issueOff == "edge-stale" || q.issueOff == "old" || (q.issueOff == "absent" && true) || strings.HasPrefix(q.issueOff, "year-")
 	if q.issueOff == "absent" {
 		// absent IssueInstant parses to the zero instant: stale for every window
 		stale = true
